@@ -285,9 +285,9 @@ impl Prop for C15 {
         "cases = STUN messages over UDP, both IP versions, source/destination ports incl. 65535: Binding Requests with the RFC 5389 magic cookie and 0..6 well-formed TLVs (CHANGE-REQUEST at most once, USERNAME/SOFTWARE/PRIORITY/unknown types, value lengths 0..64 multiples of 4, plus a variant with > 255 attribute bytes so that the attribute walk is exercised outside the matcher's known shadowing divergence), RFC 3489 requests without cookie in the two published forms, RFC 5389 requests whose attribute values are padded (lengths not multiples of 4); negatives: indication / success / error class and other methods; malformed TLV lists (only: no crash, any STUN reply satisfies the invariants). Over TCP: a flow whose first segment is a magic-cookie request of > 255 attribute bytes (complete, or cut short so that the flow is identified but nothing is answered yet) followed by 1..3 segments holding STUN messages whose type is a Binding Request or any other class / method (incl. methods whose high bits live in the first byte while the second byte reads 0x01): only Binding Requests may get a STUN response, and that response satisfies the same invariants. Oracle: independent STUN decoder: type 0x0101, length field = attribute bytes, 128-bit transaction id echoed, exactly one MAPPED-ADDRESS with family/port/address = IP version/source port/source address, response source port = dport (+1 mod 2^16 with change-port). Requests inside a listed matcher divergence (C10) are excluded and counted. Non-trivial = well-formed requests and answered hostile ones; distinct by message hash and by (attribute-list shape, cookie mode, IP version)."
     }
     fn run(&self, ctx: &mut RunCtx) {
-        let n = ctx.share(ctx.tier.n(800_000, 10_000_000));
+        let n = ctx.share(ctx.tier.n(2_500_000, 20_000_000));
         ctx.run_generated("stun", n, case_strategy(), check);
-        let m = ctx.share(ctx.tier.n(200_000, 3_000_000));
+        let m = ctx.share(ctx.tier.n(600_000, 5_000_000));
         ctx.run_generated("stun-tcp", m, tcp_case_strategy(), tcp_check);
     }
     fn replay(&self, stream: &str, case: &Value, st: &mut Stats) -> Check {
